@@ -153,3 +153,23 @@ func JoinOf(elems []string, sep string) string { return strings.Join(elems, sep)
 //@ assigns none
 //@ pure
 //@ end
+
+//@ ext fmt.Sprintf func(format string, a []any) (s string)
+//@ assigns none
+//@ pure
+//@ end
+
+//@ ext errors.Is func(err error, target error) (ok bool)
+//@ ensures err == nil && target != nil ==> !ok
+//@ assigns none
+//@ pure
+//@ end
+
+//@ ext (encoding/binary.bigEndian).PutUint64 func(e binary.ByteOrder, b []byte, v uint64)
+//@ requires len(b) >= 8
+//@ ensures uint64(b[0])*72057594037927936+uint64(b[1])*281474976710656+uint64(b[2])*1099511627776+uint64(b[3])*4294967296+uint64(b[4])*16777216+uint64(b[5])*65536+uint64(b[6])*256+uint64(b[7]) == v
+//@ ensures string(b[8:]) == old(string(b[8:]))
+//@ assigns b[:]
+//@ pure
+//@ end
+
